@@ -108,19 +108,25 @@ func c06Narrowing(c *Ctx) {
 	expanding := func(f, excl *ssa.Function) string {
 		res := ""
 		seen := map[*ssa.Function]bool{excl: true}
-		work := []*ssa.Function{f}
+		type wi struct{ g, from *ssa.Function }
+		work := []wi{{f, nil}}
+		parent := map[*ssa.Function]*ssa.Function{}
 		var clo []*ssa.Function
 		for len(work) > 0 {
-			g := work[len(work)-1]
+			w := work[len(work)-1]
 			work = work[:len(work)-1]
+			g := w.g
 			if g == nil || seen[g] || g.Blocks == nil || !(inModule(g) || isModuleWrapper(g)) {
 				continue
 			}
 			seen[g] = true
+			parent[g] = w.from
 			clo = append(clo, g)
 			allInstrs(g, func(in ssa.Instruction) {
 				if ci, ok := in.(ssa.CallInstruction); ok {
-					work = append(work, c.P.Callees(ci)...)
+					for _, h := range c.P.Callees(ci) {
+						work = append(work, wi{h, g})
+					}
 				}
 			})
 		}
@@ -128,7 +134,15 @@ func c06Narrowing(c *Ctx) {
 		for _, g := range clo {
 			allInstrs(g, func(in ssa.Instruction) {
 				if cl, ok := in.(*ssa.Call); ok && res == "" && isFuncCall(cl.Common(), "bytes", "Repeat") {
-					res = shortName(g) + " pads its output (bytes.Repeat at " + c.P.ipos(cl) + ")"
+					// named by the encoder it belongs to (the padding may sit in a helper of that encoder)
+					host := g
+					for h := g; h != nil; h = parent[h] {
+						if h.Signature.Recv() != nil && (h.Name() == "ToBytes" || h.Name() == "Marshal") {
+							host = h
+							break
+						}
+					}
+					res = shortName(host) + " pads its output (bytes.Repeat at " + c.P.ipos(cl) + ")"
 				}
 			})
 		}
@@ -200,7 +214,7 @@ func c06Narrowing(c *Ctx) {
 			}
 			for _, cal := range c.P.Callees(enc) {
 				if why := expanding(cal, f); why != "" {
-					r.Violation("C06-K5", key+" that can reach the padding encoder "+strings.SplitN(why, " pads", 2)[0], c.P.ipos(cl), fmt.Sprintf("in %s: the nested encoding can be longer than its wire form (%s reached through %s): for a large accepted datagram the %d-bit length is truncated by the narrowing conversion and the re-encoded bytes no longer decode", why, shortName(cal), bits))
+					r.Violation("C06-K5", key+" that can reach the padding encoder "+strings.SplitN(why, " pads", 2)[0], c.P.ipos(cl), fmt.Sprintf("in %s: the nested encoding can be longer than its wire form (reached through %s): for a large accepted datagram the %d-bit length is truncated by the narrowing conversion and the re-encoded bytes no longer decode", why, shortName(cal), bits))
 					return
 				}
 			}
